@@ -414,3 +414,98 @@ Lemma RV_keeps2 : forall U U' m, keeps2 U U' -> RV U m -> RV U' m.
 Proof.
   intros U U' m K HR op u' Hz Hu. destruct (K op u' Hz Hu) as (u & A & B). rewrite B. apply HR; auto.
 Qed.
+
+Lemma index_tx_rv : forall cfg h insc t b b' m m2 lft w d,
+  c_sats cfg = true -> RU (s_utxo (b_st b)) m -> RV (s_utxo (b_st b)) m -> ins_real t -> t_id t <> 0 ->
+  index_tx cfg h insc false t b = Ok b' -> S.index_tx (erase_tx t) m = Ok (m2, lft, w, d) ->
+  RV (s_utxo (b_st b')) m2.
+Proof.
+  intros cfg h insc t b b' m m2 lft w d HS HU HR HI Hz H1 H2.
+  unfold index_tx in H1. rewrite HS in H1. unfold S.index_tx in H2. cbn [erase_tx S.ins S.outs S.txid] in H2.
+  destruct (take_inputs (t_ins t) (s_utxo (b_st b))) as [[ents U1]| |] eqn:ET; cbn [bind] in H1; try discriminate H1.
+  destruct (split_sats (t_outs t) (concat (map u_ranges ents))) as [[po left1]| |] eqn:ESp; cbn [bind] in H1; try discriminate H1.
+  destruct (S.take_inputs (t_ins t) m) as [[irs m1]| |] eqn:ET2; cbn [bind] in H2; try discriminate H2.
+  destruct (take_inputs_bridge _ _ _ _ _ _ _ HU HI ET ET2) as [-> _].
+  destruct (split_sats_eq _ _ _ _ (t_id t) 0 ESp) as (w' & EA). unfold erase_outs in EA. rewrite EA in H2. cbn [bind] in H2.
+  destruct (S.put_outputs (t_id t) 0 po m1 []) as [m2' d'] eqn:EP. inv H2.
+  pose proof (take_inputs_rv _ _ _ _ _ _ _ HR ET ET2) as V1.
+  pose proof (put_outputs_rv cfg (t_id t) (t_outs t) po 0 U1 m1 [] HS (split_sats_length _ _ _ _ ESp) V1) as V2. rewrite EP in V2. cbn [fst] in V2.
+  destruct insc.
+  - eapply RV_keeps2; [|exact V2]. eapply index_inscriptions_keeps2 in H1; [exact H1|exact Hz|]. cbn [set_st b_st with_utxo s_utxo]. apply put_outputs_pres.
+  - inv H1. cbn [set_st b_st with_utxo s_utxo]. exact V2.
+Qed.
+
+Lemma index_txs_rv : forall cfg h insc l b b' m cbin w0 d0 m2 cbin2 w2 d2 lost,
+  c_sats cfg = true -> RU (s_utxo (b_st b)) m -> RN (s_utxo (b_st b)) lost -> RV (s_utxo (b_st b)) m -> b_cb_ranges b = cbin ->
+  Forall tx_ok3 l ->
+  index_txs cfg h insc l b = Ok b' -> S.index_txs (map erase_tx l) m cbin w0 d0 = Ok (m2, cbin2, w2, d2) ->
+  RV (s_utxo (b_st b')) m2.
+Proof.
+  intros cfg h insc l. induction l as [|t r IH]; intros b b' m cbin w0 d0 m2 cbin2 w2 d2 lost HS HU HN HR HC HF H1 H2; cbn [index_txs map S.index_txs] in *.
+  - inv H1. inv H2. auto.
+  - dbind H1. rename a into b1. dbind H2. destruct a as [[[m' lft] w'] d']. apply Forall_cons_iff in HF. destruct HF as [(F1 & F2 & F3) HF2].
+    destruct (index_tx_bridge _ _ _ _ _ _ _ _ _ _ _ _ HS HU HN F1 F2 F3 E E0) as (A & B & C & D).
+    pose proof (index_tx_rv _ _ _ _ _ _ _ _ _ _ _ HS HU HR F2 F3 E E0) as V.
+    eapply (IH _ _ _ _ _ _ _ _ _ _ _ HS A B V (eq_trans C (f_equal (fun x => x ++ lft) HC)) HF2 H1 H2).
+Qed.
+
+Lemma index_block_rv : forall cfg h blk st st' st2 st2',
+  c_sats cfg = true -> BR h st st2 -> RV (s_utxo st) (S.utxo st2) -> block_ok3 blk -> blk <> [] ->
+  index_block cfg h blk st = Ok st' -> S.index_block st2 (map erase_tx blk) = Ok st2' ->
+  RV (s_utxo st') (S.utxo st2').
+Proof.
+  intros cfg h blk st st' st2 st2' HS [BU BN BH] BV BO NE H1 H2. subst h. set (h := S.height st2) in *.
+  destruct blk as [|t0 r]; [congruence|]. destruct BO as [[B1 B2] B3].
+  unfold index_block in H1. rewrite HS in H1. unfold S.index_block in H2. cbn [map] in H2. fold h in H2.
+  dbind H1. rename a into cb. dbind H1. rename a into b1. dbind H1. rename a into b2. inv H1. cbn [tl] in *.
+  dbind H2. destruct a as [[[m1 cbin] w1] d1]. dbind H2. destruct a as [[ents lostr] w2]. rename E3 into EA3.
+  destruct (S.put_outputs (S.txid (erase_tx t0)) 0 ents m1 []) as [m2 d2] eqn:EP.
+  destruct (S.lost_writes lostr (S.lost_sats st2)) as [w3 ls]. inv H2.
+  assert (Hcb : cb = if 0 <? S.subsidy h then [(S.starting_sat h, S.starting_sat h + S.subsidy h)] else []).
+  { destruct (0 <? subsidy h) eqn:Q.
+    - unfold starting_sat in E. destruct (N.ltb_spec h SUBSIDY_HALVING_INTERVAL) as [Hh|Hh]; [|discriminate]. cbn [bind] in E. inv E.
+      destruct (subsidy_bridge h Hh) as [-> ->]. rewrite Q. reflexivity.
+    - inv E. destruct (N.ltb_spec h SUBSIDY_HALVING_INTERVAL) as [Hh|Hh].
+      + destruct (subsidy_bridge h Hh) as [-> _]. rewrite Q. reflexivity.
+      + assert (Z : subsidy h = 0) by (destruct (N.ltb_spec 0 (subsidy h)); [discriminate|lia]).
+        assert (Z2 : S.subsidy h = 0).
+        { unfold S.subsidy, S.epoch_subsidy, subsidy in *. change SI_HALVING_INTERVAL with SUBSIDY_HALVING_INTERVAL.
+          change SI_FIRST_POST_SUBSIDY with 33. change (SI_INITIAL_SUBSIDY_COINS * SI_COIN_VALUE) with (50 * COIN_VALUE).
+          exact Z. }
+        rewrite Z2. reflexivity. }
+  match type of E0 with index_txs _ _ _ _ ?B = _ => set (b0 := B) in * end.
+  rewrite <- Hcb in E2.
+  assert (HC0 : b_cb_ranges b0 = cb) by (subst b0; reflexivity).
+  destruct (index_txs_bridge cfg h (c_first cfg <=? h) r b0 b1 (S.utxo st2) cb [] [] m1 cbin w1 d1 (S.lost st2) HS BU BN HC0 B3 E0 E2) as (R1 & N1 & C1 & L1).
+  pose proof (index_txs_rv cfg h (c_first cfg <=? h) r b0 b1 (S.utxo st2) cb [] [] m1 cbin w1 d1 (S.lost st2) HS BU BN BV HC0 B3 E0 E2) as V1.
+  unfold index_tx in E1. rewrite HS in E1. cbn [bind] in E1.
+  destruct (split_sats (t_outs t0) (b_cb_ranges b1)) as [[po left1]| |] eqn:ESp; cbn [bind] in E1; try discriminate E1.
+  rewrite C1 in ESp.
+  destruct (split_sats_eq _ _ _ _ (t_id t0) 0 ESp) as (w' & EA). unfold erase_outs in EA. cbn [erase_tx S.txid S.outs] in EA3, EP. rewrite EA in EA3. inv EA3.
+  pose proof (put_outputs_rv cfg (t_id t0) (t_outs t0) ents 0 (s_utxo (b_st b1)) m1 [] HS (split_sats_length _ _ _ _ ESp) V1) as V2. rewrite EP in V2. cbn [fst] in V2.
+  assert (V3 : RV (s_utxo (b_st b2)) m2).
+  { destruct (c_first cfg <=? h).
+    - eapply RV_keeps2; [|exact V2]. eapply index_inscriptions_keeps2 in E1; [exact E1|exact B2|]. cbn [set_st b_st with_utxo s_utxo]. apply put_outputs_pres.
+    - inv E1. cbn [set_st b_st with_utxo s_utxo]. exact V2. }
+  cbn [s_utxo S.utxo]. intros op u Hz Hu. destruct (b_lost_ranges b2) as [|p l]; [apply V3; auto|].
+  rewrite tgP_set in Hu. rewrite pair_eqb_false in Hu; [apply V3; auto|]. intro. subst. apply Hz. reflexivity.
+Qed.
+
+(* ---- chains *)
+
+Lemma index_chain_bridge : forall cfg c h st st' st2 st2',
+  c_sats cfg = true -> BR h st st2 -> RV (s_utxo st) (S.utxo st2) ->
+  Forall block_ok3 c -> Forall (fun b => b <> []) c ->
+  index_chain cfg h c st = Ok st' -> S.run_from st2 (erase_chain c) = Ok st2' ->
+  (exists h', BR h' st' st2') /\ RV (s_utxo st') (S.utxo st2').
+Proof.
+  intros cfg c. induction c as [|blk r IH]; intros h st st' st2 st2' HS HB HV BO NE H1 H2; cbn [index_chain erase_chain map S.run_from] in *.
+  - inv H1. inv H2. split; eauto.
+  - dbind H1. dbind H2. apply Forall_cons_iff in BO. destruct BO as [B1 B2]. apply Forall_cons_iff in NE. destruct NE as [N1 N2].
+    pose proof (index_block_bridge _ _ _ _ _ _ _ HS HB B1 N1 E E0) as HB'.
+    pose proof (index_block_rv _ _ _ _ _ _ _ HS HB HV B1 N1 E E0) as HV'.
+    eapply IH; eauto.
+Qed.
+
+Lemma BR_init : BR 0 empty_state S.init.
+Proof. split; cbn; [intros op rs _ H; discriminate | reflexivity | reflexivity]. Qed.
